@@ -1,13 +1,12 @@
 """C18 -- parsing cost grows polynomially with input size.
 
-What is decided here (see DESIGN.md, C18):
-  * every compiled pattern is regenerated into coq/Gen/Generated.v and the polynomial path-count
-    certificate for it is re-checked in Coq (Props/C18.v) -- a theorem for all inputs;
-  * every loop of the hand-written scanners / receive runs on explicit fuel in the model and the
-    fuel bound is a theorem (shared with C05/C15);
-  * the link "CPython's backtracking engine costs no more than the live-path count" is empirical:
-    adversarial input families (fixed ones + pump strings derived from each pattern's partial-
-    derivative automaton) are timed on the implementation at doubling sizes.
+What is decided here (see DESIGN.md, C18): no theorem.  A cost semantics for the backtracking matcher on all
+inputs (failing ones included) and an ambiguity certificate per pattern were not built, so this check is a timing
+experiment on the implementation: adversarial input families are run at doubling sizes and both the absolute CPU
+time and the growth per doubling are bounded.  The patterns are still regenerated into coq/Gen/Generated.v on
+every run (they are what C15-C17 reason about), and the loops of the hand-written scanners / receive are shown to
+terminate within fuel linear in the input by the totality theorems of C05, C15 and C17 - that bounds iterations,
+not time.
 """
 from __future__ import annotations
 
@@ -83,7 +82,10 @@ def families():
     F["filter:oid-components"] = ("filter", lambda n: "(" + ".".join(["1"] * (n // 2)) + "!=x)")
     F["filter:oid-components-zero"] = ("filter", lambda n: "(" + ".".join(["0"] * (n // 2)) + "!=x)")
     F["filter:options"] = ("filter", lambda n: "(a" + ";x" * (n // 2) + "!=x)")
-    F["filter:nesting"] = ("filter", lambda n: "(!" * (n // 2) + "a=b" + ")" * (n // 2))
+    F["filter:nesting-malformed"] = ("filter", lambda n: "(!" * (n // 2) + "a=b" + ")" * (n // 2))
+    F["filter:nesting-not"] = ("filter", lambda n: "(!" * (n // 3) + "(a=b)" + ")" * (n // 3))
+    F["filter:nesting-and-or"] = ("filter", lambda n: "(&(|" * (n // 6) + "(a=b)" + "))" * (n // 6))
+    F["filter:nesting-siblings"] = ("filter", lambda n: "(&(x=y)" * (n // 8) + "(a=b)" + ")" * (n // 8))
     F["filter:nesting-unclosed"] = ("filter", lambda n: "(&" * (n // 2))
     F["filter:wide-and"] = ("filter", lambda n: "(&" + "(a=b)" * (n // 5) + ")")
     F["filter:escapes"] = ("filter", lambda n: "(a=" + "\\41" * (n // 3) + ")")
@@ -113,12 +115,12 @@ class C18(Prop):
     rule = (
         "timing sweep on the implementation: every adversarial family (unterminated / escaped quoted strings, long "
         "space runs, repeated empty and long extension lists, name and OID lists failing late, dotted OID components, "
-        "attribute options, deep / wide / unclosed nesting, late bad escapes, many '*', many messages per chunk, "
+        "attribute options, deep valid nesting of !, & and | (alone and with siblings), malformed / unclosed / wide nesting, late bad escapes, many '*', many messages per chunk, "
         "byte-wise delivery, absurd length and tag headers) is run at sizes 100..1600 (thorough: ..6400); CPU time per "
         "call must stay below 1 s and the growth from n to 2n below a factor 12 (cubic = 8); non-trivial = all"
     )
     assumptions = [
-        "the regex theorem bounds the number of live matcher paths (polynomial for every input); that CPython's sre costs no more than that count per input position is an empirical link, measured here",
+        "no theorem bounds the cost: the families are chosen by hand from the patterns and loops of the parsers (unterminated quoted strings, nested repetitions, long space runs, deep valid and malformed nesting, late failures); an input family outside them is not covered",
         "wall/CPU time depends on the machine: thresholds are deliberately loose (1 s absolute, x12 per doubling)",
     ]
 
